@@ -55,6 +55,9 @@ def setup():
 def gen_world(rng: SimRandom) -> dict:
     na = rng.randint(1, 6)
     nf = rng.randint(2, 24)
+    if rng.chance(0.06):  # swarm: an occasional much larger system (size thresholds, buffer/stride effects)
+        na = rng.randint(7, 40)
+        nf = rng.randint(25, 300)
     grid = rng.pick([7, 9, 11]) if rng.chance(0.3) else None
     kinds = rng.sample(worlds.SPECIES_POOL, rng.randint(1, min(3, na)))
     if rng.chance(0.3) and na >= 2:
@@ -644,7 +647,7 @@ class Run:
         if a is None or b is None or a is b or a.kind != 'traj' or b.kind != 'traj' or a.sys != b.sys:
             return self.trace.log(ev='EXTEND', step=self.step, skipped=True)
         self.cur = a.sys
-        if a.M['species'] != b.M['species'] or a.M['time_step'] != b.M['time_step'] or len(a.M['P']) + len(b.M['P']) > 200:
+        if a.M['species'] != b.M['species'] or a.M['time_step'] != b.M['time_step'] or len(a.M['P']) + len(b.M['P']) > 700:
             return self.trace.log(ev='EXTEND', step=self.step, skipped='incompatible')
         if a.T.site_properties is not None or a.T.frame_properties is not None:
             return self.trace.log(ev='EXTEND', step=self.step, skipped='props')
